@@ -692,6 +692,8 @@ func runCase(kind string, c caseDesc, raw []byte) {
 		runJWK(kind, d, c.Note)
 	case "didbuilt":
 		runConstructed(kind, c.Note, c.Key)
+	case "time":
+		runTime(kind, c.Note)
 	case "fp":
 		runFP(kind, c.Code, c.Key, c.Note)
 	case "didkey":
@@ -824,6 +826,7 @@ func main() {
 	genConstructed(rng.Fork(900000))
 	genFP(rng.Fork(500000), scale)
 	genDIDKeys(rng.Fork(600000), scale)
+	genTimes(rng.Fork(1300000), scale)
 }
 
 func min(a, b int) int {
